@@ -56,6 +56,9 @@ pub struct TaskInfo {
     pub parked: bool,
     pub finished: bool,
     pub spawned_by: Option<usize>,
+    /// channel sends completed by this task / parks it has returned from
+    pub sends: u64,
+    pub parks_done: u64,
 }
 
 /// Fault configuration of a world (F4 only lives here; the other faults are workload/schedule).
@@ -184,6 +187,17 @@ pub fn unblock(task: usize) {
 
 pub fn task_finished(task: usize) -> bool {
     with(|w| w.tasks.get(&task).map(|t| t.finished).unwrap_or(false))
+}
+
+/// Will this task block in `park` before it can send another message? (harness introspection
+/// for workload decisions only — never used by an oracle)
+pub fn task_owes_park_without_token(task: usize) -> bool {
+    with(|w| {
+        w.tasks
+            .get(&task)
+            .map(|t| t.sends > t.parks_done && !t.token)
+            .unwrap_or(false)
+    })
 }
 
 pub fn task_parked_without_token(task: usize) -> bool {
